@@ -51,6 +51,7 @@ type HarnessCfg struct {
 	MaxPaths        int      `json:"max_paths"`
 	Preemptions     int      `json:"preemptions"`
 	Stubs           []string `json:"stubs"`
+	Races           bool     `json:"races"` // happens-before race detection on the repository's own accesses
 	SolverTimeoutMS int      `json:"solver_timeout_ms"`
 	Twin            bool     `json:"twin"` // run with every verif_Assert replaced by false (vacuity twin)
 	Replay          []int    `json:"replay,omitempty"`
